@@ -7,7 +7,7 @@ RETIRE_CONNECTION_ID frames) checked by the python oracle `o_c13` AND replayed t
 import e2e
 import e2e_props
 import e2e_c13
-from vlib import DRIVER, run_lines, step_lean
+from vlib import DRIVER, run_lines, step_extract, step_lean
 
 PROP_MODULES = ["QuicProofs.Props.C13ConnectionIds"]
 
@@ -113,7 +113,8 @@ def run(ctx):
         "packet <-> datagram correlation (destination CID of the packet carrying RETIRE_CONNECTION_ID) uses the FIFO order of packet_sent events and wire lines; ambiguous cases are skipped",
         "Lean model: write context abstracted to the number of equally sized NEW_CONNECTION_ID frames that still fit; Memo caches and the stateless-reset map are not modelled",
     ]
-    lean_ok = step_lean(ctx, PROP_MODULES, [])
+    step_extract(ctx, ["local_ids"])
+    lean_ok = step_lean(ctx, PROP_MODULES, ["QuicProofs.Bridge.LocalIds"])
     if not lean_ok:
         ctx.escalated = True
     # Lean witnesses replayed through the transcribed registry
